@@ -345,7 +345,7 @@ func (C08) Run(tp *tape.Tape) core.Result {
 	if streamPhase && faultRate > 0 && !sawBudget {
 		r.Inc("stream.histories_through_node_Loop", 1)
 		h.Notes = "stream phase: the steps above, each followed by write(\"\\n@@i@@\\n\"), through node.Loop over a real file; failing steps replaced by their completed prefix for twin B"
-		if v := c08Stream(lsteps, nDefs, sw.Repl, &r, h); v != nil {
+		if v := c08Stream(lsteps, nDefs, sw.Repl, &r, h, &trace); v != nil {
 			r.Violation = v
 		}
 	}
@@ -385,7 +385,7 @@ type lstep struct {
 // c08Stream runs the stream phase of C08: the same history through the real read-eval loop
 // (node.Loop + FReader + processInput) on a real file, once with the failing statements and once
 // with their completed prefixes; a marker statement after every step delimits its output.
-func c08Stream(lsteps []lstep, nDefs int, repl bool, r *core.Result, h *Hist) *core.Violation {
+func c08Stream(lsteps []lstep, nDefs int, repl bool, r *core.Result, h *Hist, digest *core.Hash64) *core.Violation {
 	// Stream phase: the same history through the real read-eval loop (node.Loop + FReader +
 	// processInput) on a real file, once with the failing statements and once with their
 	// completed prefixes; a marker statement after every step delimits its output.
@@ -464,6 +464,9 @@ func c08Stream(lsteps []lstep, nDefs int, repl bool, r *core.Result, h *Hist) *c
 			continue
 		}
 		ca, cb := cutReports(sa[i]), cutReports(sb[i])
+		if digest != nil {
+			*digest = digest.Str(ca)
+		}
 		if ca != cb {
 			r.Violation = &core.Violation{Clause: "stream-twin-differs", Detail: fmt.Sprintf("step %d %q through node.Loop: after the failures it printed %q, in the failure-free stream %q", i, trunc(st.a, 60), trunc(ca, 200), trunc(cb, 200)), History: h}
 			return r.Violation
@@ -490,6 +493,6 @@ func (C08) RunScript(raw json.RawMessage) core.Result {
 			ls = append(ls, lstep{st, st, true})
 		}
 	}
-	c08Stream(ls, 0, sc.Flavour == "repl", &r, h)
+	c08Stream(ls, 0, sc.Flavour == "repl", &r, h, nil)
 	return r
 }
